@@ -881,7 +881,7 @@ def run(tier: str, seed: int) -> int:
     rng = chk.rng
     quick = tier == "quick"
     n_rand, n_shaped, n_harvest, n_multi, n_gen_plain, n_gen_blocks, n_mut_per_file = \
-        (500, 1500, 500, 200, 500, 400, 6) if quick else (3000, 8000, 3000, 1500, 5000, 4000, 60)
+        (400, 1000, 400, 150, 400, 300, 5) if quick else (3000, 8000, 3000, 1500, 5000, 4000, 60)
     dist = {"line_functions": {}, "line_kinds": {}, "outcomes": {}, "mutations": {}, "constructs_used": {},
             "families": {}}
 
